@@ -11,7 +11,7 @@ from typing import Dict, List, Optional, Sequence, Set, Tuple
 
 from hypothesis import strategies as st
 
-from vf.model.schema import Coll, M, Schema, method_metadata
+from vf.model.schema import Coll, M, Schema, collection_metadata, enum_metadata, method_metadata
 
 WIDTH = {"bool": -1, "int": 0, "float": 1, "double": 2}
 
@@ -75,6 +75,7 @@ class Features:
     bool_arith: bool = False
     explicit_ttree: bool = True
     echo: bool = True
+    follow_links: int = 0  # follow object-valued methods up to this many steps (C10)
     math_names: Tuple[str, ...] = (
         "sin", "cos", "tanh", "atan", "exp2small", "sqrtabs", "log1pabs", "atan2", "hypot", "fabs", "abs", "cbrt", "erf", "fmax", "fmin",
         "copysign", "fdim", "ceil",
@@ -142,8 +143,19 @@ class QGen:
 
     # ------------------------------------------------------------- objects
     def obj_sources(self, scope, fuel):
-        """list of (text, cls) object expressions available cheaply"""
+        """list of (text, cls) object expressions available cheaply: object variables and (chains of) object-valued methods"""
         out = [(n, t.cls) for n, t in scope if isinstance(t, TObj)]
+        if self.f.follow_links:
+            frontier = list(out)
+            for _ in range(self.f.follow_links):
+                nxt = []
+                for txt, cls in frontier:
+                    for m in self.s.classes[cls].methods:
+                        if m.kind == "obj" and (self.f.nullable or not m.nullable) and not m.args:
+                            nxt.append((f"{txt}.{m.name}()", m.cls))
+                            self.labels.add("object-link")
+                out += nxt
+                frontier = nxt
         return out
 
     def obj(self, scope, fuel) -> Optional[Tuple[str, str]]:
@@ -337,7 +349,7 @@ class QGen:
             return self.pick(nums)
         if k == "method":
             txt, cls = self.pick(objs)
-            ms = [m for m in self.s.classes[cls].methods if (m.kind == "num" and m.ctype != "bool" and not m.enum) or (m.kind == "echo" and self.f.echo and m.echo in ("id", "scaled") and m.args[0] != "bool")]
+            ms = [m for m in self.s.classes[cls].methods if (m.kind == "num" and m.ctype != "bool" and not m.enum and not m.tree_type) or (m.kind == "echo" and self.f.echo and m.echo in ("id", "scaled", "enum10") and m.args[0] != "bool")]
             if ms:
                 m = self.pick(ms)
                 if m.kind == "num":
@@ -345,6 +357,10 @@ class QGen:
                         return (f"{txt}.{m.name}", m.ctype if m.typed else "double")
                     return (f"{txt}.{m.name}()", m.ctype if m.typed else "double")
                 self.labels.add("method-with-arg")
+                if m.args[0].startswith("enum:"):
+                    e = self.s.enum(m.args[0][5:])
+                    self.labels.add("enum-argument")
+                    return (f"{txt}.{m.name}({e.dotted}.{self.pick(e.values)})", "double")
                 arg = self.lit_int() if m.args[0] == "int" else self.lit_dbl()
                 return (f"{txt}.{m.name}({arg})", "double")
         if self.chance(1, 2):
@@ -505,7 +521,10 @@ class QGen:
         seed = self.pick(["0", "1", "0.0", "2.5", "10"])
         body = self.pick([f"{acc} + {v}", f"{acc} + {v} * 2", f"{acc} + 1", f"{acc} * 2 + {v}", f"({acc} if {acc} > {v} else {v})", f"{acc} - {v}"])
         self.labels.add("Aggregate")
-        kind = wider("int" if "." not in seed else "double", r[1]) if v in body else ("int" if "." not in seed else "double")
+        import re as _re
+
+        uses_v = _re.search(rf"\b{_re.escape(v)}\b", body) is not None
+        kind = wider("int" if "." not in seed else "double", r[1]) if uses_v else ("int" if "." not in seed else "double")
         if "if" in body:
             kind = "double"
         return (f"{r[0]}.Aggregate({seed}, lambda {acc}, {v}: {body})", kind)
@@ -535,6 +554,9 @@ class QGen:
         objs = self.obj_sources(scope, fuel)
         bm = [(txt, m) for txt, cls in objs for m in self.s.classes[cls].methods if m.kind == "num" and m.ctype == "bool" and m.typed]
         opts = [(8, "cmp")]
+        em = [(txt, m) for txt, cls in objs for m in self.s.classes[cls].methods if m.kind == "num" and m.enum]
+        if em:
+            opts.append((3, "enum"))
         if bm:
             opts.append((2, "method"))
         if bools:
@@ -549,6 +571,12 @@ class QGen:
             self.labels.add("compare")
             self.nops += 1
             return f"({a} {op} {b})"
+        if k == "enum":
+            txt, m = self.pick(em)
+            e = self.s.enum(m.enum)
+            self.labels.add("enum-compare")
+            self.nops += 1
+            return f"({txt}.{m.name}() {self.pick(['==', '!='])} {e.dotted}.{self.pick(e.values)})"
         if k == "method":
             txt, m = self.pick(bm)
             self.labels.add("bool-method")
@@ -570,7 +598,14 @@ class QGen:
         opts = [(6, "num"), (2, "bool"), (6, "seq")]
         if self.f.seq2d and fuel > 1:
             opts.append((2, "seq2"))
+        special = [(txt, m) for txt, cls in self.obj_sources(scope, fuel) for m in self.s.classes[cls].methods if m.kind == "num" and (m.enum or m.tree_type)]
+        if special:
+            opts.append((3, "typed-leaf"))
         k = self.weighted(opts)
+        if k == "typed-leaf":
+            txt, m = self.pick(special)
+            self.labels.add("enum-column" if m.enum else "tree_type-column")
+            return (f"{txt}.{m.name}()", TNum(m.tree_type or "int"))
         if k == "num":
             t, kind = self.num(scope, fuel)
             return (t, TNum(kind))
@@ -631,7 +666,7 @@ class Query:
 
 def dataset_text(schema: Schema, extra_md: Sequence[dict] = (), with_types: bool = True) -> str:
     q = "EventDataset('ds')"
-    mds = (method_metadata(schema) if with_types else []) + list(extra_md)
+    mds = ((enum_metadata(schema) + collection_metadata(schema) + method_metadata(schema)) if with_types else []) + list(extra_md)
     for md in mds:
         q = f"MetaData({q}, {md!r})"
     return q
